@@ -10,7 +10,10 @@ from harness.common import Failure, Spec, coq_list
 # case = {"kind": "lock"|"sem", "limit": n, "ops": [op]}
 #   sop = ["acq"] | ["run", fn] | ["rel", i] | ["relself"] | ["cancel", i] | ["fire", j, ok, v]
 #   op  = sop | ["acqthen", [sop]] | ["runthen", [sop], fn]
-#   fn  = ["ret", v] | ["raise"] | ["defer"]
+#   fn  = ["ret", v] | ["raise"] | ["defer"] | ["chain"]
+#         defer: returns an unfired Deferred, fired later by ["fire", j, ...];  chain: returns a Deferred that has ALREADY
+#         fired but whose chain is suspended on a pending inner Deferred (succeed(x).addCallback(lambda _: inner)); the
+#         inner one is fired later by ["fire", j, ...].  "Result available" = the chain delivered, not `called`.
 DEEP = 60     # cascades deeper than this many nested synchronous run()s are the recursion-limit class
 
 
@@ -101,16 +104,21 @@ def impl(case) -> str:
             started.add(j)
             ev(f"G{j}")
             script(j, sc)
-            if fn[0] == "defer":
-                fd = defer.Deferred()
+            if fn[0] in ("defer", "chain"):
+                inner = defer.Deferred()
 
                 def done(r):
                     ev(f"F{j}")
                     st["releasing"] = j
                     return r
-                fd.addBoth(done)
-                fds[j] = fd
-                return fd
+                fds[j] = inner
+                if fn[0] == "defer":
+                    inner.addBoth(done)
+                    return inner
+                # already fired, chain suspended on `inner`: the result is available only when inner fires
+                outer = defer.succeed("start").addCallback(lambda _: inner)
+                outer.addBoth(done)
+                return outer
             ev(f"F{j}")
             st["releasing"] = j
             if fn[0] == "ret":
@@ -232,6 +240,10 @@ def oracle(case, obs):
             return Failure(case, f"malformed event {t!r}", "log")
         k, ident, arg, tk = m.group(1), m.group(2), m.group(3), int(m.group(4))
         where = f"event {pos} {t}: "
+        if k == "L" and ident == "?":
+            return Failure(case, where + "release() entered although no holder released and no run()'s function result "
+                           "has become available (the function's Deferred has not delivered its result yet)",
+                           "release-before-function-result")
         if k == "E" or ident == "?" or (k == "R" and arg and arg.startswith("!")):
             return Failure(case, where + "unexpected failure / unattributed release", "unexpected-event")
         i = int(ident) if ident is not None else None
@@ -315,7 +327,7 @@ def oracle(case, obs):
 
 def _fn(rng):
     r = rng.random()
-    return ["ret", rng.randrange(100)] if r < 0.45 else ["raise"] if r < 0.6 else ["defer"]
+    return ["ret", rng.randrange(100)] if r < 0.45 else ["raise"] if r < 0.6 else ["defer"] if r < 0.8 else ["chain"]
 
 
 def _sop(rng, nid, in_script=False):
@@ -355,7 +367,7 @@ def _random_history(rng, n):
     return ops
 
 
-ALPHA = [["acq"], ["run", ["ret", 7]], ["run", ["raise"]], ["run", ["defer"]], ["rel", 0], ["rel", 1], ["rel", 2],
+ALPHA = [["acq"], ["run", ["ret", 7]], ["run", ["raise"]], ["run", ["defer"]], ["run", ["chain"]], ["rel", 0], ["rel", 1], ["rel", 2],
          ["cancel", 0], ["cancel", 1], ["cancel", 2], ["fire", 0, True, 5], ["fire", 1, False, 0], ["fire", 2, True, 6],
          ["acqthen", [["relself"]]], ["runthen", [["acq"], ["cancel", 1]], ["ret", 3]]]
 
@@ -395,11 +407,15 @@ def corpus():
                                              ["cancel", 0], ["fire", 0, True, 1], ["fire", 1, False, 0], ["rel", 3]]},
         {"kind": "sem", "limit": 1, "ops": [["runthen", [["acq"], ["run", ["ret", 2]], ["cancel", 1]], ["raise"]],
                                              ["rel", 1]]},
+        # the function returns an already-fired Deferred whose chain is suspended: release only when it delivers
+        {"kind": "sem", "limit": 2, "ops": [["acq"], ["run", ["chain"]], ["acq"], ["run", ["chain"]], ["fire", 1, True, 5],
+                                             ["cancel", 3], ["rel", 0], ["fire", 3, False, 0]]},
+        {"kind": "lock", "limit": 1, "ops": [["run", ["chain"]], ["acq"], ["fire", 0, False, 0], ["rel", 1]]},
     ]
 
 
 def _fn_coq(f):
-    return f"(FRet ({f[1]})%Z)" if f[0] == "ret" else "FRaise" if f[0] == "raise" else "FDefer"
+    return f"(FRet ({f[1]})%Z)" if f[0] == "ret" else "FRaise" if f[0] == "raise" else "FDefer" if f[0] == "defer" else "FChain"
 
 
 def _sop_coq(o):
@@ -477,7 +493,8 @@ SPEC = Spec(
     nontrivial=lambda c, o: sum(1 for t in ("W", "C", "R", "L") if t in o) >= 2,
     histogram=histogram,
     rule="every history of length <= 3 (quick; length 3 sampled 4%) / <= 4 (thorough; length 4 sampled 25%) over a "
-         "15-letter alphabet (acquire, run with returning/raising/Deferred-returning function, release by holder "
+         "16-letter alphabet (acquire, run with returning/raising/unfired-Deferred-returning/already-fired-but-suspended-"
+         "Deferred-returning function, release by holder "
          "0-2, cancel 0-2, fire 0-2, acquire-then-release-in-callback, run whose function re-enters the primitive) "
          "for DeferredLock and DeferredSemaphore(1..3); random histories of 6-50 ops (limits up to 5) in which 30% "
          "of the ops carry re-entrant scripts; bursts of 3-400 run() calls queued behind a holder; non-trivial = at "
